@@ -372,6 +372,8 @@ def exhaustive(maxlen, mode, cfgs, alpha=None):
 
 def gen(seed, tier):
     rng = random.Random(seed * 104729 + 16)
+    # a hang (a blocked helper thread never woken) costs the whole batch timeout: keep it short in the quick tier
+    PARTS[0]["timeout_case"] = 3 if tier == "quick" else 30
     cases = boundary_cases()
     n = 1200 if tier == "quick" else 12000
     for i in range(n):
